@@ -371,7 +371,9 @@ def body_matrices(c, ctx):
     ctx.close('lagrange_mass', M, Mw, 1e-10, sM, **sig)
     if k >= 1:
         ctx.close('lagrange_stiffness', K, Kw, 1e-9, np.abs(Kw).max() + 1e-300, **sig)
-    ctx.close('lagrange_load', b, bw, 1e-10, np.abs(bw).max() + 1e-300, **sig)
+    from ..oracle import geom as _g
+    load_scale = np.abs(bw).max() + _g.cell_measures(m)[cells].sum() * (1.0 + np.abs(m.p).max()) ** sum(beta)
+    ctx.close('lagrange_load', b, bw, 1e-10, load_scale, **sig)
     # partition of unity: entries of the mass matrix sum to the measure of the integration domain
     from ..oracle import geom
     vol = geom.cell_measures(m)[cells].sum()
